@@ -108,6 +108,15 @@ class Script:
             # Would throw error, but Bitcoin Core will read the number of bytes that are there (not what was promised)
             print(f"mismatch between length and consumed bytes {count} vs {length}")
             obj.raw = raw
+        else:
+            # a script with non-minimal or oversized pushes does not serialize back
+            # to the bytes it came from: keep them (they are what gets hashed)
+            try:
+                unchanged = obj.raw_serialize() == raw
+            except ValueError:
+                unchanged = False
+            if not unchanged:
+                obj.raw = raw
         return obj
 
     @classmethod
